@@ -5,7 +5,7 @@ from harness import tlc, par, dsreplay
 
 
 def run_family(ctx, family, fmt="text", variant=None, fresh=True, timeout_s=900, limit=None, nontrivial_key=None,
-               module="MC_Dataset", seed_sample=None, always_nontrivial=False, nontrivial_fn=None):
+               module="MC_Dataset", seed_sample=None, always_nontrivial=False, nontrivial_fn=None, cli_lists=0):
     res = tlc.run(module, "%s_%s" % (module, family), tag="%s_%s_%s" % (ctx.pid, module, family), timeout_s=timeout_s)
     ctx.add_tlc("%s/%s" % (module, family), res, {"Family": family})
     objs = res.emitted
@@ -22,6 +22,13 @@ def run_family(ctx, family, fmt="text", variant=None, fresh=True, timeout_s=900,
             ctx.nontriv(json.dumps([o["inputs"], o.get("clim") if o.get("hasClim") else None, o["opts"]], sort_keys=True))
         for site, detail, rep in r["divs"]:
             ctx.diverge(site, rep, detail=detail)
+    if cli_lists:
+        sub = objs if len(objs) <= cli_lists else __import__("random").Random(ctx.seed + 7).sample(objs, cli_lists)
+        for r in par.pmap(dsreplay.check_cli_lists, [(o, fmt if fmt != "auto" else "text") for o in sub]):
+            ctx.evaluations += r["n"]
+            ctx.traces += 1 if r["n"] else 0
+            for site, detail, rep in r["divs"]:
+                ctx.diverge(site, rep, detail=detail)
     if objs:
         o = objs[len(objs) // 2]
         ctx.sample({"family": family, "format": fmt, "inputs": o["inputs"], "opts": o["opts"],
